@@ -214,6 +214,10 @@ def correspondence(ctx):
         streams.append(s.run())
     finally:
         env.close()
+    # --- the task body really executed: run_file, and plan -> run_file -> merge-results -> Analysis
+    #     (harness/props/c14_runfile.py)
+    from harness.props import c14_runfile
+    streams += c14_runfile.streams(ctx)
     return streams
 
 
